@@ -215,7 +215,9 @@ def _apply_pipeline_config_override(
     if min_continues is None:
         return
 
-    pipeline_config = ensure_config_section(orchestrator, "collection_pipeline")
+    section_names = ("collection_pipeline", "collection-pipeline", "pipeline")
+    section = next((n for n in section_names if n in orchestrator.config), section_names[0])
+    pipeline_config = ensure_config_section(orchestrator, section)
     set_config_value(pipeline_config, "min_continues", min_continues, verbose)
 
 
